@@ -408,6 +408,22 @@ impl OpCode {
     }
 }
 
+/// Verification hook H2 (observation only): counts how many instructions the weight calculator visits.
+#[cfg(melstf_verif)]
+pub mod verif_work {
+    use std::cell::Cell;
+    thread_local! {
+        static WORK: Cell<u64> = Cell::new(0);
+    }
+    pub(crate) fn bump() {
+        WORK.with(|w| w.set(w.get().saturating_add(1)));
+    }
+    /// Resets this thread's counter and returns its previous value.
+    pub fn take() -> u64 {
+        WORK.with(|w| w.replace(0))
+    }
+}
+
 /// Computes the weight of a bunch of opcodes.
 pub fn opcodes_weight(opcodes: &[OpCode]) -> u128 {
     let (mut sum, mut rest) = opcodes_car_weight(opcodes);
@@ -421,6 +437,8 @@ pub fn opcodes_weight(opcodes: &[OpCode]) -> u128 {
 
 /// Compute the weight of the first bit of opcodes, returning a weight and what remains.
 fn opcodes_car_weight(opcodes: &[OpCode]) -> (u128, &[OpCode]) {
+    #[cfg(melstf_verif)]
+    verif_work::bump();
     if opcodes.is_empty() {
         return (0, opcodes);
     }
